@@ -483,6 +483,11 @@ func (v *Visitor) Visit(s *df.AnalyzerState, source df.NodeWithTrace) {
 
 			closureNode := graphNode.ParentNode()
 
+			if closureNode.ClosureSummary == nil {
+				// the closure is created but its function is never called: there is no summary to flow into
+				break
+			}
+
 			if !closureNode.ClosureSummary.Constructed {
 				if ignoreNonSummarized {
 					break
